@@ -31,7 +31,7 @@ open Wire Pen PenShow Gen
     fl <nodes> <edges> <cycles> <gauge>                    cycles: lab,lab,...@idx (planted) or ...@- separated by ';' ; gauge: lab=±1,... or -
     chim <m> <n> <t> <multiplier> <nodes|none> <edges> <draws>    draws: the recorded indices of choice((-1., 1.))
     mimo <nt> <y> <F rows>  |  mimob <nr> <nt> <draws>  |  comp <nr> <nt> <attenuation rows> <draws>
-    qpsk <nt> <Re y> <Im y> <Re F rows> <Im F rows>
+    qpsk <nt> <Re y> <Im y> <Re F rows> <Im F rows>  |  qam <amplitude bits> <nt> <Re y> <Im y> <Re F rows> <Im F rows>
 -/
 
 def kindOf? (s : String) : Option GateKind :=
@@ -303,6 +303,10 @@ def answer3 (line : String) : Option String :=
     match nt.toNat?, parseRats yr, parseRats yi, parseMatrix fr, parseMatrix fi with
     | some nt, some yr, some yi, some fr, some fi => match mimoQpsk nt yr yi fr fi with | some bag => showBag .spin bag | none => "err"
     | _, _, _, _, _ => "bad-op"
+  | ["qam", na, nt, yr, yi, fr, fi] => some <|
+    match na.toNat?, nt.toNat?, parseRats yr, parseRats yi, parseMatrix fr, parseMatrix fi with
+    | some na, some nt, some yr, some yi, some fr, some fi => match mimoQam na nt yr yi fr fi with | some bag => showBag .spin bag | none => "err"
+    | _, _, _, _, _, _ => "bad-op"
   | ["mimob", nr, nt, draws] => some <|
     match nr.toNat?, nt.toNat?, parseNats draws with
     | some nr, some nt, some draws => match mimoBinary nr nt draws with | some bag => showBag .spin bag | none => "err"
